@@ -53,3 +53,21 @@ def pair_cases(alphabet, n):
 
 def is_num(x):
     return isinstance(x, (int, float, np.integer, np.floating)) and not isinstance(x, bool)
+
+
+def medium_diagram(n, k, lattice):
+    """Deterministic medium-size diagrams (Weyl sequence); `lattice` rounds to half-integers (many ties)."""
+    import math
+
+    phi = (math.sqrt(5.0) - 1.0) / 2.0
+    s2 = math.sqrt(2.0) - 1.0
+    pts = []
+    for i in range(1, n + 1):
+        b = (((i + 11 * k) * phi) % 1.0) * 12.0
+        p = (((i + 7 * k) * s2) % 1.0) * 8.0 + 0.25
+        if lattice:
+            b, p = round(b * 2) / 2.0, max(0.5, round(p * 2) / 2.0)
+        pts.append([b, b + p])
+    return pts
+
+
